@@ -125,7 +125,9 @@ def run_check(tier, seed):
             p.all('close')
             rc, impl, err = apicmp.run_impl(exe, _write(wd, 'a.txt', p.text()), 1, wd)
             evals += 1
-            line = 'RA %s %s %s %d %d %d 0' % (eh, ev, er, av if use2 else 0, ar if use2 else 0, nfix)
+            # ncmpio__enddef computes num_fix_vars = ndefined - num_rec_vars BEFORE num_rec_vars is recounted: on a newly
+            # created file num_rec_vars is still 0, so the value the code uses is the number of ALL variables
+            line = 'RA %s %s %s %d %d %d 0' % (eh, ev, er, av if use2 else 0, ar if use2 else 0, nfix + nrec)
             m = subprocess.run([drv], input=line + '\n', stdout=subprocess.PIPE, text=True).stdout.split()
             got = {}
             for l in impl:
